@@ -70,15 +70,35 @@ type posted struct {
 }
 
 func runHist(h []int, _ json.RawMessage) (out xplore.Out) {
-	if len(h) > 0 && (h[0] == nestMarker || h[0] == nestBFSMarker) {
+	if len(h) > 0 && h[0] < 0 {
+		// histories of the additional worlds carry a world marker in front
 		saved, savedR := W, restartE
-		W, restartE = nestWorld(), -1
+		limit := -1
+		switch h[0] {
+		case nestMarker:
+			W = nestWorld()
+		case nestBFSMarker:
+			W, limit = nestWorld(), 16
+		case pruneMarker, pruneSpanMarker:
+			W = pruneWorld()
+		}
+		restartE = -1
 		defer func() { W, restartE = saved, savedR }()
 		o := runHist(h[1:], nil)
-		if h[0] == nestBFSMarker {
+		if h[0] == pruneSpanMarker {
+			// the long early vote of this family sits on the branch that a finalization cuts out of the tree: a
+			// span violation found here is that situation, named apart from span violations found anywhere else
+			for i := range o.Viols {
+				if strings.HasPrefix(o.Viols[i].Key, "vote-span-surrounds-another") {
+					o.Viols[i].Key += ":surrounding-vote-on-a-branch-cut-by-finalization"
+				}
+			}
+		}
+		if limit >= 0 {
+			// the exhaustive searches of these worlds use a prefix of their event alphabet
 			var en []int
 			for _, e := range o.Enabled {
-				if e < 16 {
+				if e < limit {
 					en = append(en, e)
 				}
 			}
@@ -224,6 +244,9 @@ func main() {
 		if len(h) > 0 && (h[0] == nestMarker || h[0] == nestBFSMarker) {
 			return append([]string{"world:own-vote-nesting"}, nestWorld().Describe(h[1:])...)
 		}
+		if len(h) > 0 && (h[0] == pruneMarker || h[0] == pruneSpanMarker) {
+			return append([]string{"world:pruned-fork"}, pruneWorld().Describe(h[1:])...)
+		}
 		return W.Describe(h)
 	}}
 	if par.IsWorker() {
@@ -235,13 +258,20 @@ func main() {
 	if os.Getenv("VERIF_C18_PART") == "concurrent" {
 		// developer switch: only the interleaving part (the run is reported as not exhaustive)
 		run.Capped("VERIF_C18_PART=concurrent: search parts skipped")
+	} else if os.Getenv("VERIF_C18_PART") == "prune" {
+		// developer switch: only the pruned-fork world
+		run.Capped("VERIF_C18_PART=prune: other parts skipped")
+		prune(run, spec, thorough)
 	} else {
 		st = xplore.BFS(run, spec)
 		nest(run, spec, thorough)
+		prune(run, spec, thorough)
 	}
-	saved := W
-	concurrent(run, thorough)
-	W = saved
+	if os.Getenv("VERIF_C18_PART") != "prune" {
+		saved := W
+		concurrent(run, thorough)
+		W = saved
+	}
 	run.Set("states", st.States)
 	run.Set("transitions", st.Transitions)
 	run.Set("traces_validated_against_impl", st.Checks)
@@ -251,7 +281,7 @@ func main() {
 		all = append(all, i)
 	}
 	run.Set("events", W.Describe(all))
-	run.Set("rule", "BFS over interleavings of in-order block deliveries of two forks (the node votes by itself with validator key 0 as checkpoints connect), adversarial verification messages of validators 1..3 (equivocating and surrounding links), thorough: header-carried slashable signature and one restart; de-duplicated on the node-state digest; after every event all signatures recorded in the tree and in stored headers, and at the end all messages the node posted, are checked for the two slashing conditions per validator")
+	run.Set("rule", "BFS over interleavings of in-order block deliveries of two forks (the node votes by itself with validator key 0 as checkpoints connect), adversarial verification messages of validators 1..3 (equivocating and surrounding links), thorough: header-carried slashable signature and one restart; de-duplicated on the node-state digest; after every event all signatures recorded in the tree and in stored headers, and at the end all messages the node posted, are checked for the two slashing conditions per validator; plus flat histories of an own-vote nesting world and of a pruned-fork world (a vote of validator 1 on branch b, finalization of a2 by supermajority links root>a2 and a2>a4 cutting branch b out of the checkpoint tree, then a conflicting vote of validator 1 on branch a; branch orders, vote placements and positions enumerated, thorough: every position and a restart before the late vote)")
 	run.Assume("4 federation validators; validator slots are identical on both forks (vote-elected sets that differ between forks are not in this world)")
 	run.Finish()
 }
